@@ -48,15 +48,15 @@ Definition observe_hostres (r : outcome (Z * host_out)) : outcome (Z * hview) :=
 Definition proj_addr (family : Z) (r : rr) : option (bin * Z) :=
   if is_in r then
     match rr_data r with
-    | RD_A a => if family =? LEG_AF_INET then Some (a, to_int (rr_ttl r)) else None
-    | RD_AAAA a => if family =? LEG_AF_INET6 then Some (a, to_int (rr_ttl r)) else None
+    | RD_A a => if family =? LEG_AF_INET then Some (a, ttl_to_int (rr_ttl r)) else None
+    | RD_AAAA a => if family =? LEG_AF_INET6 then Some (a, ttl_to_int (rr_ttl r)) else None
     | _ => None
     end
   else None.
 
 (* (owner, target, ttl) of an IN CNAME *)
 Definition proj_cname (r : rr) : option (str * str * Z) :=
-  if is_in r then match rr_data r with RD_CNAME t => Some (rr_name r, t, to_int (rr_ttl r)) | _ => None end
+  if is_in r then match rr_data r with RD_CNAME t => Some (rr_name r, t, ttl_to_int (rr_ttl r)) | _ => None end
   else None.
 
 Definition is_any_addr (r : rr) : bool :=
@@ -81,7 +81,7 @@ Definition proj_caa (r : rr) : option caa_reply :=
     end
   else None.
 Definition proj_uri (r : rr) : option uri_reply :=
-  if is_in r then match rr_data r with RD_URI p w t => Some (mkUri p w (to_int (rr_ttl r)) t) | _ => None end
+  if is_in r then match rr_data r with RD_URI p w t => Some (mkUri p w (ttl_to_int (rr_ttl r)) t) | _ => None end
   else None.
 Definition proj_soa (r : rr) : option soa_reply :=
   if is_in r then match rr_data r with RD_SOA m rn s rf rt e mi => Some (mkSoa m rn s rf rt e mi) | _ => None end
@@ -171,8 +171,8 @@ Definition cn_of (c : str * str * Z) : ai_cname :=
 Definition node_of (port : Z) (r : rr) : option ai_node :=
   if is_in r then
     match rr_data r with
-    | RD_A a => Some (mkNode LEG_AF_INET a port (to_int (rr_ttl r)))
-    | RD_AAAA a => Some (mkNode LEG_AF_INET6 a port (to_int (rr_ttl r)))
+    | RD_A a => Some (mkNode LEG_AF_INET a port (ttl_to_int (rr_ttl r)))
+    | RD_AAAA a => Some (mkNode LEG_AF_INET6 a port (ttl_to_int (rr_ttl r)))
     | _ => None
     end
   else None.
